@@ -161,6 +161,20 @@ def run(ctx):
                       "push of (new value, expiry) into the scanned vector follows the removal",
                       "push does not follow the removal in the same vector / does not push the new tuple", u.loc(pb))
 
+    # every path through upsert stores the new (value, expiry) tuple: a re-insert always restarts the lifetime
+    store_blocks = [b for b, t in pushes]
+    for b, i, st in u.assigns():
+        rv = st["rv"]
+        if rv["k"] == "agg" and rv["ak"] == "array" and st["dst"].get("p") and st["dst"]["p"][0] == "deref":
+            e = ur.rvalue(rv, (b, i))
+            if len(e[1]) == 1 and A.peel(e[1][0])[0] == "tuple" and A.peel(A.peel(e[1][0])[1][0]) == ("param", 4):
+                store_blocks.append(b)
+    rets = A.returns(u)
+    esc = [rb for rb in rets if rb in u.reachable(0, removed_blocks=store_blocks)]
+    ctx.check(len(store_blocks) >= 3 and not esc, "C05.5", "upsert:always-stores-new-tuple",
+              "every path from entry to return passes a store of (new value, now + ttl) (push / vec![tuple])",
+              "upsert can return without storing the new tuple: a re-inserted record keeps its old expiry", u.loc(esc[0]) if esc else u.loc())
+
     # ------------------------------------------------------------------ C05.6
     for name, allowed in ((CACHE_GET_UNCHECKED, {CACHE_GET, SHARED + "::get_without_checking_expiration"}),
                           (SHARED + "::get_without_checking_expiration", set()),
